@@ -842,7 +842,9 @@ class PoolLab(object):
                 act = ('refuse',)
         elif stage == 'idle':
             if 'idle421' in mix and u < 0.55:
-                act = ('reply', '421')
+                # the announcement of a server-side idle timeout need not be a 421 (seed C19k): any unsolicited reply
+                # on an idling connection is followed by the next hop closing it
+                act = ('reply', ['421', '421', '451', '420', '221', '554', '250'][int(U(s, 'ic', key) * 7)])
             elif 'close' in mix and u > 0.9:
                 act = ('close',)
         elif stage in ('mail', 'data') or stage.startswith('rcpt') or stage.startswith('eod'):
